@@ -23,7 +23,11 @@
    at cache level C06_hist / C02 place EFire after the map call has returned.
    Not proved: that under a fair schedule every single call finishes (a writer
    can in principle be overtaken by resize after resize); the dynamic part of
-   the check runs the implementation under step budgets for that. *)
+   the check runs the implementation under step budgets for that.
+   Map variant (map.go, XMachineS): props/C03.v -- C03_resize_protocol (resizeMu / resizing
+   flag / wait set, no lost wake-up, also for calls made from a Range visitor) and
+   C03_bucket_locks (the spin lock in the top-hash word is held exactly by the thread whose
+   program counter says so; mutual exclusion; a returned thread holds none). *)
 From CacheV Require Import Base SpecMap XMachine TabExec Exec XExec.
 From CacheV.proofs Require Import X_basic X_inv X_c13 X_inst.
 From Coq Require Import NArith.
